@@ -441,6 +441,8 @@ func obsC14(raw json.RawMessage) map[string]interface{} {
 			outT = append(outT, tErr)
 		case "middle":
 			outT = append([]reflect.Type{outT[0], tErr}, outT[1:]...)
+		case "double":
+			outT = append(outT, tErr, tErr)
 		}
 		ft := reflect.FuncOf(inT, outT, variadic)
 		fn = reflect.MakeFunc(ft, func([]reflect.Value) []reflect.Value {
